@@ -3,7 +3,6 @@ package c20
 import (
 	"fmt"
 	"math"
-	"sort"
 	"strings"
 	"testing"
 
@@ -138,7 +137,7 @@ func TestC20Sets(t *testing.T) {
 		}
 
 		// The family: each set is built from a list with repetitions.
-		k := rapid.IntRange(0, 5).Draw(t, "sets")
+		k := rapid.SampledFrom([]int{0, 1, 2, 2, 3, 3, 4, 5}).Draw(t, "sets")
 		family := make([]digest.Set, 0, k)
 		models := make([]mset, 0, k)
 		count := map[string]int{}
@@ -335,5 +334,3 @@ func TestC20Sets(t *testing.T) {
 		c.End()
 	})
 }
-
-var _ = sort.Strings
